@@ -31,7 +31,17 @@ type Case struct {
 	WS1, WS2 uint64 // whitespace seeds of the two spellings of the header (0 = none)
 	Default  string // restful.DefaultResponseContentType
 	Compact  bool   // the handler switches pretty printing off for its response (the writers' other code path; the choice of representation must not depend on it, so the model is not told)
+	// history within the request: a Content-Type header is already on the response when the entity
+	// is written (Preset, "" = none), put there by PresetBy: the handler itself (resp.AddHeader or
+	// resp.Header().Set before WriteEntity) or a container / web-service / route filter that gives
+	// every response a default Content-Type.  The entity's label must be the negotiated type all the
+	// same, so the model is not told
+	Preset   string
+	PresetBy string // handler-AddHeader | handler-Header().Set | container-filter | webservice-filter | route-filter
 }
+
+// PresetBys are the places a Content-Type can come from before the entity is written.
+var PresetBys = []string{"handler-AddHeader", "handler-Header().Set", "container-filter", "webservice-filter", "route-filter"}
 
 // whitespace next to "," (i.e. around the media type) is mostly blanks: the ROUTER's Accept test
 // trims blanks only, so a tab there makes it reject the request before any entity is written
@@ -125,15 +135,18 @@ func obsList(kw string, os []Obs) *sx.Node {
 }
 
 // Line is the protocol line of the case with the observed answers.
-func (c *Case) Line(id int, real, realv []Obs) string {
+func (c *Case) Line(id int, real, realv []Obs) string { return c.LineReg(id, real, realv, Registry) }
+
+// LineReg is Line for a given registry (recorded regressions name the registry they were recorded with).
+func (c *Case) LineReg(id int, real, realv []Obs, reg []string) string {
 	return sx.K("mime", sx.N(id), sx.K("acc", sx.H(c.Accept())), sx.K("var", sx.H(c.Variant())),
-		sx.Hs("prod", c.Produces), sx.Hs("reg", Registry), sx.K("def", sx.H(c.Default)),
+		sx.Hs("prod", c.Produces), sx.Hs("reg", reg), sx.K("def", sx.H(c.Default)),
 		obsList("real", real), obsList("realv", realv)).String()
 }
 
 // Signature identifies the input (without the observed answers).
 func (c *Case) Signature() string {
-	return c.Router + "|" + strings.Join(c.Produces, ",") + "|" + c.Default + "|" + map[bool]string{true: "absent", false: "present"}[c.Absent] + "|" + c.Accept() + "|" + c.Variant()
+	return c.Router + "|" + strings.Join(c.Produces, ",") + "|" + c.Default + "|" + map[bool]string{true: "absent", false: "present"}[c.Absent] + "|" + c.Accept() + "|" + c.Variant() + "|" + c.Preset + "|" + c.PresetBy
 }
 
 func (c *Case) Clone() Case {
